@@ -44,13 +44,18 @@ fn suites_for(i: usize, real: bool) -> (String, String, String, String) {
 
 fn psk_choices(nmsgs: usize, i: usize) -> Vec<u8> {
     let n = nmsgs as u8;
-    match i % 6 {
+    match i % 10 {
         0 => vec![],
         1 => vec![0],
         2 => vec![n],
         3 => vec![1],
         4 => vec![0, n],
-        _ => vec![(i as u8 / 6) % (n + 1)],
+        // two psk tokens in one message (psk0 and psk1 both go into the first), in either order of the name
+        5 => vec![0, 1],
+        6 => vec![1, 0],
+        7 => vec![n, 0],
+        8 => if n >= 2 { vec![1, 2] } else { vec![1] },
+        _ => vec![(i as u8 / 10) % (n + 1)],
     }
 }
 
@@ -78,6 +83,7 @@ fn base_cfg(pattern: &str, i: usize, seed: u64, real: bool) -> HsCfg {
         stateless: i % 2 == 1,
         transport_msgs: 4,
         query_each_step: false,
+        wrong_rs: false,
         seed: r.next(),
     }
 }
@@ -176,6 +182,9 @@ fn gen_hs(run: &mut Run, prop: &str, seed: u64, thorough: bool) {
                         }
                         if prop == "C17" && real {
                             cfg.dh = ["P256", "25519"][rep % 2].into();
+                        }
+                        if matches!(prop, "C17" | "C07") {
+                            cfg.wrong_rs = (pi + rep + usize::from(real)) % 2 == 0;
                         }
                         let nfaults = if thorough { 3 } else { 2 };
                         for k in 0..nm {
@@ -335,8 +344,28 @@ fn gen_mismatch(run: &mut Run, seed: u64, thorough: bool) {
                 }
                 for kind in 0..6 {
                     let mut sc = Sc::new();
-                    if run_mismatch(&cfg, kind, &mut sc, &mut r) {
+                    if run_mismatch(&cfg, kind, None, &mut sc, &mut r) {
                         run.add("hs", format!("C08 mismatch kind {kind} {}", cfg.name()), sc);
+                    }
+                }
+            }
+        }
+        // several psk modifiers, a mismatch in each single slot (toy suite)
+        let nm = inst_of(p, &[]).map_or(1, |x| x.msgs.len()) as u8;
+        for ps in [vec![0u8, 1], vec![1, 0], vec![0, nm], vec![1, nm]] {
+            if ps[0] == ps[1] || inst_of(p, &ps).is_none() {
+                continue;
+            }
+            for slot in 0..ps.len() {
+                let mut cfg = base_cfg(p, pi, r.next(), false);
+                cfg.psks = ps.clone();
+                for kind in [2usize, 5] {
+                    if kind == 5 && !thorough && (pi + slot) % 2 == 0 {
+                        continue;
+                    }
+                    let mut sc = Sc::new();
+                    if run_mismatch(&cfg, kind, Some(slot), &mut sc, &mut r) {
+                        run.add("hs", format!("C08 mismatch kind {kind} slot {slot} {}", cfg.name()), sc);
                     }
                 }
             }
@@ -344,7 +373,7 @@ fn gen_mismatch(run: &mut Run, seed: u64, thorough: bool) {
     }
 }
 
-fn run_mismatch(cfg: &HsCfg, kind: usize, sc: &mut Sc, r: &mut Rng64) -> bool {
+fn run_mismatch(cfg: &HsCfg, kind: usize, slot: Option<usize>, sc: &mut Sc, r: &mut Rng64) -> bool {
     let name = cfg.name();
     let inst = inst_of(&cfg.pattern, &cfg.psks).unwrap();
     let mut kr = Rng64(cfg.seed);
@@ -393,7 +422,7 @@ fn run_mismatch(cfg: &HsCfg, kind: usize, sc: &mut Sc, r: &mut Rng64) -> bool {
             if psk.is_empty() {
                 return false;
             }
-            let j = r.below(spec_r.psks.len());
+            let j = slot.unwrap_or_else(|| r.below(spec_r.psks.len()));
             let b = r.below(32);
             spec_r.psks[j].1[b] ^= 1 << r.below(8);
             "psk bit"
@@ -434,7 +463,7 @@ fn run_mismatch(cfg: &HsCfg, kind: usize, sc: &mut Sc, r: &mut Rng64) -> bool {
         return true;
     }
     if kind == 5 {
-        let j = r.below(psk.len());
+        let j = slot.unwrap_or_else(|| r.below(psk.len()));
         let mut k2 = psk[j].1.clone();
         let b = r.below(32);
         k2[b] ^= 1 << r.below(8);
